@@ -117,11 +117,22 @@ func (fs *FS) Bytes(name string) []byte {
 }
 
 func (fs *FS) Create(dir, name string, size uint64) (types.WritableFile, error) {
-	_, f, err := fs.R.begin(Ev{Src: "vfs", Call: "create", Name: name, N: int(size)}, true)
+	seq, f, err := fs.R.begin(Ev{Src: "vfs", Call: "create", Name: name, N: int(size)}, true)
 	if err != nil {
 		return nil, err
 	}
 	if f != nil {
+		if f.Prefix >= 0 {
+			// the file was created but preallocating it failed (what fs.Create does when fallocate
+			// fails after the O_EXCL open): the error is returned and an empty file stays behind
+			fs.mu.Lock()
+			if _, ok := fs.files[name]; !ok {
+				fs.files[name] = &lfile{data: []byte{}}
+				fs.Creates = append(fs.Creates, name)
+				fs.R.setData(seq, func(e *Ev) { e.Res = "err-left"; e.N = 0 })
+			}
+			fs.mu.Unlock()
+		}
 		return nil, ErrInjected
 	}
 	fs.mu.Lock()
